@@ -138,6 +138,56 @@ theorem sentinel_batch_needs_all (c : Sentinel) (opted : List Bool) :
   cases hr : c.replicaOnly <;> cases hp : c.hasPred <;> cases ha : allOpted opted <;>
     simp_all [reachesReplica]
 
+theorem batch_needs_all_aux (c : Sentinel) (opted : List Bool) (hr : c.replicaOnly = false)
+    (h : false ∈ opted) : c.multi opted = .primary := by
+  apply (sentinel_batch_needs_all c opted).2
+  rintro (h1 | ⟨_, h2⟩)
+  · simp [hr] at h1
+  · have := h2 false h; simp at this
+
+/-! ### ConnLifetime recovery -/
+
+/-- **recovery_keeps_connection_class.** Every connection call of a batch — the first one and every
+    re-send of the rest after errConnExpired — goes to the connection picked for the whole batch. -/
+theorem recovery_keeps_connection_class (n : Nat) (t : Target) (exp : List Nat) (start : Nat) :
+    ∀ call ∈ recoverCalls n t exp start, call.2 = t := by
+  induction exp generalizing start with
+  | nil => intro call h; simp [recoverCalls] at h; simp [h]
+  | cons p rest ih =>
+    intro call h
+    unfold recoverCalls at h
+    split at h
+    · simp only [List.mem_cons] at h
+      rcases h with h | h
+      · simp [h]
+      · exact ih p call h
+    · simp at h; simp [h]
+
+/-- hence a sentinel batch that is not opted in as a whole (and no ReplicaOnly) reaches only the primary,
+    however often its tail is re-sent because the connection expired — the SendToReplicas predicate is
+    never re-evaluated on a suffix -/
+theorem sentinel_recovery_needs_all (c : Sentinel) (opted : List Bool) (exp : List Nat)
+    (hr : c.replicaOnly = false) (h : false ∈ opted) :
+    ∀ call ∈ c.multiCalls opted exp, call.2 = .primary := by
+  intro call hc
+  have := recovery_keeps_connection_class _ _ _ _ call hc
+  rw [this]
+  exact (batch_needs_all_aux c opted hr h)
+
+/-- the same for the standalone client -/
+theorem standalone_recovery_needs_all (s : Standalone) (cache : Bool) (opted : List Bool) (sel : Int)
+    (exp : List Nat) (h : false ∈ opted ∨ cache = true) :
+    ∀ call ∈ s.multiCalls cache opted sel exp, call.2 = .primary := by
+  intro call hc
+  have := recovery_keeps_connection_class _ _ _ _ call hc
+  rw [this]
+  cases cache with
+  | true => rfl
+  | false =>
+    rcases h with h | h
+    · simp only [Bool.false_eq_true, if_false]; exact standalone_batch_one_unopted s opted sel h
+    · simp at h
+
 /-! ### cluster -/
 
 /-- newClusterClient rejects ReplicaOnly together with SendToReplicas / ReadNodeSelector -/
